@@ -632,12 +632,16 @@ pub fn c10_chain_body(c: &C10Chain, obs: &mut Obs) -> Result<(), String> {
         _ => "via/direct",
     });
     let mut shrunk_twice = 0;
+    let mut shrunk_before_last = false;
     for (k, (mask, outside)) in c.steps.iter().enumerate() {
         let accept = |id: u32| mask.get(id as usize).copied().unwrap_or(*outside);
         let before = model.types.len();
         let (map, out) = check_retain_on(&mut lib, &model, &accept).map_err(|e| format!("step {k}: {e}"))?;
         if map.len() < before && !map.is_empty() {
             shrunk_twice += 1;
+            if k + 1 < c.steps.len() {
+                shrunk_before_last = true;
+            }
         }
         model = out;
     }
@@ -647,6 +651,10 @@ pub fn c10_chain_body(c: &C10Chain, obs: &mut Obs) -> Result<(), String> {
     }
     if shrunk_twice >= 2 {
         obs.class("shrunk_at_least_twice");
+    }
+    // non-trivial: some step drops something and keeps something, and a further retain is then
+    // applied to that result
+    if shrunk_before_last {
         obs.nontrivial(&(ref_enc(&c.m), &c.steps, c.via));
     }
     obs.class(&format!("steps/{}", c.steps.len()));
@@ -662,8 +670,9 @@ fn c10_chain_strat(max: usize) -> BoxedStrategy<C10Chain> {
             let n = m.types.len();
             let step = (
                 prop_oneof![
-                    5 => vec(prop::bool::weighted(0.6), n..=n),
+                    4 => vec(prop::bool::weighted(0.6), n..=n),
                     2 => vec(any::<bool>(), n..=n),
+                    1 => vec(prop::bool::weighted(0.15), n..=n),
                     1 => Just(vec![true; n]),
                 ],
                 prop::bool::weighted(0.3),
